@@ -285,7 +285,7 @@ pub fn alphabet_a() -> Vec<char> {
 
 /// Reduced alphabet used below the full-cube depth inside a sequence.
 fn reduced_alphabet() -> Vec<char> {
-    vec!['0', '5', '9', ';', '?', ' ', '>', '\x07', '\x0a', '\x0d', '$', '\x18', 'H', 'm', 'z', '\x1b', '\\', '\u{9c}', 'a', ']', '\u{e9}', '\u{30a2}']
+    vec!['0', '5', '9', ';', '?', ' ', '>', '\x07', '\x0a', '\x0d', '$', '\x18', 'H', 'm', 'z', '\x1b', '\\', '\u{9c}', 'a', ']', '\u{e9}', '\u{30a2}', 'h', 'c']
 }
 
 pub const PROBE: &str = "x\x1b[2;3Hy\x1b[B\x1b[4l";
@@ -1504,6 +1504,7 @@ pub fn poison_sequences() -> Vec<&'static str> {
 pub fn macro_alphabet_ext() -> Vec<&'static str> {
     let mut v = macro_alphabet();
     v.extend(poison_sequences());
+    v.extend(["\x1b[>4h", "\x1b[ 4l", "\x1b[>c", "\x1b[>0;1m", "\x1b[4 h", "\x1b[?>25l", "\x1b[s", "\x1b[u", "\x1b[5n", "\x1b[2S", "\x1b[2T", "\x1b[3b", "\x1b[Z", "\x1b[2 q", "\x1b[?2004h"]);
     v.extend(["\x1b[4l", "\x1b[B", "\x1b[C", "\x1b[A", "\x1b[h", "\x1b[?5l", "\x1b(B", "\x1b)0", "\x1b]P1234567", "\x1b[25l", "\x1b[;H", "\x1b[d", "\x1b[G", "\x1b[J", "\x1b[X", "\x1b[P", "\x1b[g", "\x0f", "\x1b[1;2", "\x1b", "\x1b]0;x"]);
     v.sort();
     v.dedup();
